@@ -51,7 +51,35 @@ def extract():
     return facts
 
 
-def render(facts):
+def extract_flags():
+    """the static flags (always_succeeds, can_partially_succeed) of the classes of the names layer, for every
+    combination of child flags: (kind, [child flags], flags)"""
+    from sourcer import expressions as ex
+    from extract_flags import _stub_class, FLAGS4, flags_of
+    stub = _stub_class(ex)
+    py = ex.PythonExpression
+    rows = []
+    for c in FLAGS4:
+        rows.append(('where', [c], flags_of(ex.Where(stub(*c), py('f')))))
+    for a in FLAGS4:
+        for b in FLAGS4:
+            rows.append(('let', [a, b], flags_of(ex.Let('x', stub(*a), stub(*b)))))
+    for c in FLAGS4:
+        rows.append(('call', [c], flags_of(ex.Call(ex.Ref('T'), [stub(*c)]))))
+        rows.append(('call', [c], flags_of(ex.Call(ex.Ref('T'), [ex.KeywordArg('k', stub(*c))]))))
+    for c in FLAGS4:
+        rows.append(('count', [c], flags_of(ex.List(stub(*c), min_len='n', max_len='n'))))
+    return rows
+
+
+def render(facts, flag_rows=None):
+    if flag_rows is not None:
+        b = lambda v: 'true' if v else 'false'
+        fl = lambda f: f'({b(f[0])}, {b(f[1])})'
+        rows = ',\n'.join(f'  ("{k}", [{", ".join(fl(c) for c in cs)}], {fl(f)})' for k, cs, f in flag_rows)
+        return render(facts)[:-len('end Gen\n')] + (
+            '/-- the static flags of the classes of the names layer: (class, flags of the children, (always_succeeds, can_partially_succeed)) -/\n'
+            'def namesFlags : List (String × List (Bool × Bool) × (Bool × Bool)) := [\n' + rows + '\n]\nend Gen\n')
     body = ',\n'.join(f'  ("{n}", {"true" if b else "false"})' for n, b in facts)
     return ('-- REGENERATED on every run by harness/extract_binders.py from the real symbol counter of /repo. Do not edit.\n'
             'namespace Gen\n'
@@ -61,10 +89,10 @@ def render(facts):
 
 def regenerate():
     from extract_flags import write_if_changed
-    return write_if_changed(os.path.join(LEAN, 'Gen', 'Binders.lean'), render(extract()))
+    return write_if_changed(os.path.join(LEAN, 'Gen', 'Binders.lean'), render(extract(), extract_flags()))
 
 
 if __name__ == '__main__':
     import common
     common.import_real()
-    print(render(extract()))
+    print(render(extract(), extract_flags()))
